@@ -1203,3 +1203,99 @@ def truncating_adapters(sym):
             if any(x[1].endswith(t) or x[4].endswith(t) for t in TRUNCATING):
                 out.append(x[1].rsplit("::", 1)[1])
     return out
+
+
+def vec_macro_elems(fn, sym):
+    """`vec![a, b, ..]` lowers to Box::new_uninit + a store of `array {a, b, ..}` through the box pointer +
+    box_assume_init_into_vec_unsafe. Given the sym of the resulting Vec, return the element syms (in order) or None."""
+    s = strip(sym)
+    if s[0] != "call" or not s[1].endswith("box_assume_init_into_vec_unsafe"):
+        return None
+    boxes = set(x[3] for x in walk(s) if x[0] == "call" and x[1].endswith("Box::new_uninit"))
+    if len(boxes) != 1:
+        return None
+    found = []
+    for bb in fn.normal_blocks():
+        for st in fn.stmts(bb):
+            if isinstance(st, list) and len(st) > 4 and st[2] == "=" and st[4][0] == "agg" and st[4][1] == "array" and "*" in st[3][1]:
+                base = fn.sym_local(st[3][0])
+                if boxes & set(x[3] for x in walk(base) if x[0] == "call" and x[1].endswith("Box::new_uninit")):
+                    found.append([fn.sym_operand(op) for op in st[4][3]])
+    return found[0] if len(found) == 1 else None
+
+
+# ----------------------------------------------------------------------------- inlining and comparison canonical form
+
+def map_sym(sym, f):
+    """Bottom-up rebuild of a sym: f is applied to every (already rebuilt) tuple node."""
+    if not isinstance(sym, tuple):
+        return sym
+    return f(tuple(map_sym(x, f) if isinstance(x, tuple) else x for x in sym))
+
+
+def _simplify_field(node):
+    if node and node[0] == "field":
+        inner = node[1]
+        while isinstance(inner, tuple) and inner and inner[0] == "var":
+            inner = inner[2]
+        while isinstance(inner, tuple) and inner and inner[0] == "call" and (inner[4] in ir.TRANSPARENT or inner[1] in ir.TRANSPARENT) and inner[2]:
+            inner = inner[2][0]
+            while isinstance(inner, tuple) and inner and inner[0] == "var":
+                inner = inner[2]
+        if isinstance(inner, tuple) and inner and inner[0] == "agg" and len(inner) > 3 and inner[3] and node[2] in inner[3] and len(inner[2]) == len(inner[3]):
+            return inner[2][list(inner[3]).index(node[2])]
+    return node
+
+
+def inline_sym(prog, sym, depth=3):
+    """Replace calls of small pure crate functions (single return value, no loops) by their returned expression with the
+    parameters substituted, then project fields out of aggregates built in place. Used to compare predicates by meaning
+    rather than by the helper they happen to call."""
+    if depth <= 0:
+        return sym
+
+    def step(node):
+        if node and node[0] == "call":
+            cands = [g for g in prog.fns.values() if g.name == node[1]]
+            if len(cands) == 1:
+                g = cands[0]
+                if not g.loops():
+                    rs = returned_syms(g)
+                    if len(rs) == 1 and not any(x[0] in ("phi", "unknown") for x in ir.walk(rs[0][1])):
+                        args = node[2]
+
+                        def sub(n2):
+                            if n2 and n2[0] == "param" and isinstance(n2[1], int) and 1 <= n2[1] <= len(args):
+                                return args[n2[1] - 1]
+                            return _simplify_field(n2)
+                        body = map_sym(rs[0][1], sub)
+                        return inline_sym(prog, body, depth - 1)
+        return _simplify_field(node)
+    return map_sym(sym, step)
+
+
+_REL_SWAP = {"<": ">", ">": "<", "<=": ">=", ">=": "<=", "==": "==", "!=": "!="}
+_REL_NEG = {"<": ">=", ">": "<=", "<=": ">", ">=": "<", "==": "!=", "!=": "=="}
+_BIN_REL = {"Lt": "<", "Le": "<=", "Gt": ">", "Ge": ">=", "Eq": "==", "Ne": "!="}
+_CALL_REL = {"lt": "<", "le": "<=", "gt": ">", "ge": ">=", "eq": "==", "ne": "!="}
+
+
+def canon_cmp(sym):
+    """Canonical form of a comparison predicate: (rel, lhs_sym, rhs_sym) with rel in '<','<=','==','!=' (so > and >= are
+    swapped), negations pushed inside; None if sym is not a comparison."""
+    s = strip(sym)
+    neg = False
+    while s[0] == "un" and s[1] == "Not":
+        s = strip(s[2]); neg = not neg
+    rel = None
+    if s[0] == "bin" and s[1] in _BIN_REL:
+        rel, a, b = _BIN_REL[s[1]], s[2], s[3]
+    elif s[0] == "call" and len(s[2]) == 2 and s[4].rsplit("::", 1)[-1] in _CALL_REL and ("PartialOrd" in s[4] or "PartialEq" in s[4]):
+        rel, a, b = _CALL_REL[s[4].rsplit("::", 1)[-1]], s[2][0], s[2][1]
+    if rel is None:
+        return None
+    if neg:
+        rel = _REL_NEG[rel]
+    if rel in (">", ">="):
+        rel, a, b = _REL_SWAP[rel], b, a
+    return (rel, strip(a), strip(b))
